@@ -88,6 +88,16 @@ def step (d : DSt) (line : String) : DSt × String :=
     match dl.toInt?, e.toInt? with
     | some dl, some e => ({ d with s := stepInc d.cfg d.s k dl e }, "ok")
     | _, _ => (d, "bad-op")
+  | ["shiftexp"] =>
+    if d.s.store.isEmpty then (d, "err noswamp") else
+    let l := shiftList d.cfg d.s
+    let p := (stepBuild d.cfg d.s expireAll).pairs (phys d.cfg .expire)
+    let d' := { d with s := stepShiftExpired d.cfg d.s }
+    if p.nd || p.broken then (d', "nd" ++ flagStr (findingOf d.cfg expireAll d.s.store p.causes))
+    else
+      let fl := if specOk l expireAll d.s.store then [] else
+        (match findingOf d.cfg expireAll d.s.store p.causes with | [] => ["C07-unexplained"] | fs => fs)
+      (d', "r " ++ ",".intercalate (l.map (·.key)) ++ flagStr fl)
   | ["reload"] => ({ d with s := if d.s.store.isEmpty then d.s else stepReload d.s }, "ok")
   | ["q", idx, ord, fr, lim, ft, tt, _via] =>
     match slotOf idx, fr.toNat?, lim.toNat?, optT ft, optT tt with
